@@ -207,13 +207,13 @@ def discharge(obligations, timeout_ms=10000, cross_check=False):
         sl, n = ob.smt2_sliced()
         if n < len(ob.pc):
             pre.append((i, sl, "cone of influence of the goal"))
-        elif ob.has_quantified_pc():
+        if ob.has_quantified_pc():
             pre.append((i, ob.smt2(qf_only=True), "quantifier-free part of the path condition"))
     if pre:
         outs0 = pool().map(_run_z3, [(p[1], min(timeout_ms, 4000), False) for p in pre], chunksize=1)
         done = set()
         for (i, _, how), (r, model, t, reason) in zip(pre, outs0):
-            if r == "unsat":
+            if r == "unsat" and i not in done:
                 results[i] = {"verdict": "unsat", "backend": "z3", "time_s": t,
                               "note": "discharged from the " + how}
                 done.add(i)
